@@ -445,8 +445,8 @@ fn tiny_exhaustive(t: &mut Shards, thorough: bool, seed: u64) {
                         for policy in [0usize, 1] {
                             for (pi, pr) in preds.iter().enumerate() {
                                 k += 1;
-                                // the quick tier takes a sixth of the grid, a different one per seed
-                                if !thorough && (k + seed) % 6 != 0 {
+                                // the quick tier takes a twelfth of the grid, a different one per seed
+                                if !thorough && (k + seed) % 12 != 0 {
                                     continue;
                                 }
                                 let sel = if selbits == 32 {
@@ -486,7 +486,7 @@ fn main() {
     let shards = 14;
 
     let mut t = Shards::create(&args.out, "rowsel", shards);
-    let rounds = args.scale(380, 6000);
+    let rounds = args.scale(260, 6000);
     for i in 0..rounds {
         let max = if i % 5 == 0 { 90 } else { 24 };
         selection_api(&mut rng, &mut t, max);
@@ -495,7 +495,7 @@ fn main() {
     let n1 = t.finish();
 
     let mut t = Shards::create(&args.out, "scan", shards);
-    let files = args.scale(28, 150);
+    let files = args.scale(20, 250);
     let per_file = args.scale(26, 50);
     let max_rows = args.scale(110, 200);
     for _ in 0..files {
